@@ -51,7 +51,7 @@ def main():
             return ok, o
         elif "--run-in-out" in sys.argv:
             # the demo script locates its helpers relative to itself and expects to live in <checkout>/_out
-            rc, o = sh("bash -o pipefail -c 'timeout 2400 sh _out/%s 2>&1 | tail -30'" % demo, wt, env=env)
+            rc, o = sh("bash -o pipefail -c 'timeout 2400 bash _out/%s 2>&1 | tail -30'" % demo, wt, env=env)
             return rc == 0, o
         else:
             shutil.copyfile(os.path.join(out, demo), os.path.join(wt, demo))
